@@ -59,7 +59,7 @@ def label_classes(rec, breakkw):
 
 
 def export(run_dir, version, mode='recover', env='tokenv', hist=False, maxtok=5, maxindent=2, start='file_input',
-           maxdepth=60, closeat=0, errlevels=(), errbudget=0):
+           maxdepth=60, closeat=0, errlevels=(), errbudget=0, scripts=None):
     rec, tb = pgen_export.grammar_record(pgen_export.grammar_text(version))
     assert rec['verdict'] == 'ok'
     tc = _get_token_collection(parse_version_string(version))
@@ -86,6 +86,11 @@ def export(run_dir, version, mode='recover', env='tokenv', hist=False, maxtok=5,
         closers += [('S', ')'), ('S', ']'), ('S', '}'), ('T', 'NAME'), ('T', 'NUMBER'), ('S', ':'), ('S', 'pass'),
                     ('T', 'FSTRING_END'), ('S', 'else'), ('S', 'in')]
     pb['closers'] = [tid[c] for c in closers if c in tid]
+    rep = {}
+    for c in classes:
+        for m in c['members']:
+            rep[tuple(m)] = tuple(c['rep'])
+    pb['scripts'] = [[tid[rep[tuple(l)]] for l in sc] for sc in (scripts or [])]
     os.makedirs(run_dir, exist_ok=True)
     tlc.prepare(run_dir, ['Ebnf', 'Conform', 'ParserB'], {'gs.json': pgen_export.to_json([rec]), 'pb.json': json.dumps(pb)})
     return {'classes': classes, 'labels': labels, 'rec': rec, 'pb': pb, 'tid': tid}
@@ -324,12 +329,14 @@ def norm_events(out):
 
 
 def behaviours(run_dir, version, env, mode='recover', num=300, depth=24, closeat=12, seed=0, errlevels=(),
-               errbudget=0, workers=4, exhaustive_tokens=0, timeout=900, start='file_input'):
+               errbudget=0, workers=4, exhaustive_tokens=0, timeout=900, start='file_input', scripts=None):
     """Run TLC (simulation, or exhaustive search with history when exhaustive_tokens > 0) and return the
     complete behaviours it printed: dicts(toks, status, out, err, bad, errAt)."""
     info = export(run_dir, version, mode=mode, env=env, hist=True, maxtok=exhaustive_tokens or 99, closeat=closeat,
-                  errlevels=errlevels, errbudget=errbudget, start=start)
-    if exhaustive_tokens:
+                  errlevels=errlevels, errbudget=errbudget, start=start, scripts=scripts)
+    if scripts is not None:
+        res = tlc.run(run_dir, 'ParserB', cfg(constraint=False), workers=workers, timeout=timeout, heap='12g')
+    elif exhaustive_tokens:
         res = tlc.run(run_dir, 'ParserB', cfg(constraint=True), workers=workers, timeout=timeout, heap='12g')
     else:
         res = tlc.run(run_dir, 'ParserB', cfg(constraint=False), workers=workers, timeout=timeout,
@@ -339,3 +346,97 @@ def behaviours(run_dir, version, env, mode='recover', num=300, depth=24, closeat
         behs.append({'mode': b[1], 'toks': b[2], 'status': b[3], 'out': b[4], 'err': b[5], 'bad': b[6],
                      'errAt': b[7]})
     return info, behs, res
+
+
+
+# --------------------------------------------------------------------------------------------
+# arc cover: sentences that together use every arc of every DFA reachable from the start rule
+# --------------------------------------------------------------------------------------------
+def arc_cover(rec, start='file_input'):
+    """rec: exported grammar record (rules with dfa arcs).  Returns (sentences, n_arcs): each sentence is a list of
+    [kind, value] token labels ending in ENDMARKER where the start rule consumes it."""
+    rules = {r['name']: r['dfa'] for r in rec['rules']}
+    INF = 10 ** 9
+
+    def is_nt(lab):
+        return lab[0] == 'N'
+    # 1. shortest sentence per rule (fixpoint)
+    best = {n: None for n in rules}
+
+    def shortest_from(name, k0, want_final=True, target=None):
+        """Dijkstra inside one DFA: shortest token sequence from state k0 to a final state (or to `target`)"""
+        import heapq
+        dfa = rules[name]
+        dist = {k0: (0, [])}
+        heap = [(0, k0)]
+        while heap:
+            d, k = heapq.heappop(heap)
+            if d > dist[k][0]:
+                continue
+            if (target is None and dfa[k - 1]['final']) or (target is not None and k == target):
+                return dist[k][1]
+            for lab, tgt in dfa[k - 1]['arcs']:
+                if is_nt(lab):
+                    sub = best.get(lab[2])
+                    if sub is None:
+                        continue
+                    seq = sub
+                else:
+                    seq = [[lab[0], lab[2]]]
+                nd = d + len(seq)
+                if tgt not in dist or nd < dist[tgt][0]:
+                    dist[tgt] = (nd, dist[k][1] + seq)
+                    heapq.heappush(heap, (nd, tgt))
+        return None
+    changed = True
+    while changed:
+        changed = False
+        for n in rules:
+            s = shortest_from(n, 1)
+            if s is not None and (best[n] is None or len(s) < len(best[n])):
+                best[n] = s
+                changed = True
+    # 2. shortest context of every rule inside the start rule
+    ctx = {start: ([], [])}
+    todo = [start]
+    while todo:
+        p = todo.pop(0)
+        pre_p, suf_p = ctx[p]
+        dfa = rules[p]
+        for k, st in enumerate(dfa, 1):
+            head = shortest_from(p, 1, target=k)
+            if head is None:
+                continue
+            for lab, tgt in st['arcs']:
+                if not is_nt(lab) or lab[2] not in rules:
+                    continue
+                tail = shortest_from(p, tgt)
+                if tail is None:
+                    continue
+                cand = (pre_p + head, tail + suf_p)
+                old = ctx.get(lab[2])
+                if old is None or len(cand[0]) + len(cand[1]) < len(old[0]) + len(old[1]):
+                    ctx[lab[2]] = cand
+                    todo.append(lab[2])
+    # 3. one sentence per arc
+    sentences = []
+    seen = set()
+    n_arcs = 0
+    for n, (pre, suf) in ctx.items():
+        dfa = rules[n]
+        for k, st in enumerate(dfa, 1):
+            head = shortest_from(n, 1, target=k)
+            if head is None:
+                continue
+            for lab, tgt in st['arcs']:
+                n_arcs += 1
+                mid = best.get(lab[2]) if is_nt(lab) else [[lab[0], lab[2]]]
+                tail = shortest_from(n, tgt)
+                if mid is None or tail is None:
+                    continue
+                sent = pre + head + mid + tail + suf
+                key = json.dumps(sent)
+                if key not in seen:
+                    seen.add(key)
+                    sentences.append(sent)
+    return sentences, n_arcs
